@@ -299,8 +299,12 @@ func (sd *SpecAnalyser) analyseResponseParams() {
 
 				} else {
 					// op2Response
+					node := getNameOnlyDiffNode("NoContent")
+					if op2Response.Schema != nil {
+						node = getSchemaDiffNode("Body", op2Response.Schema)
+					}
 					sd.Diffs = sd.Diffs.addDiff(SpecDifference{
-						DifferenceLocation: DifferenceLocation{URL: eachURLMethodFrom2.Path, Method: eachURLMethodFrom2.Method, Response: code2, Node: getSchemaDiffNode("Body", op2Response.Schema)},
+						DifferenceLocation: DifferenceLocation{URL: eachURLMethodFrom2.Path, Method: eachURLMethodFrom2.Method, Response: code2, Node: node},
 						Code:               AddedResponse})
 				}
 			}
